@@ -152,8 +152,10 @@ Definition d_prefix_of (doc : dnode) (v : dnav) : option bytes :=
   | Some _ => option_map d_prefix (d_node doc (dn_cur v))
   end.
 
-(* query.go:182-195 Value.  A DocumentNode falls through the switch: "" *)
-Definition d_value (doc : dnode) (v : dnav) : option bytes :=
+(* query.go:182-195 Value.  A DocumentNode falls through the switch: "" (quirk Q1).
+   [fx] selects the repaired reference (see "the two places ..." below): fx = false is
+   xmlquery v1.3.1 as it is; fx = true returns the XPath string-value of the document node. *)
+Definition d_value (fx : bool) (doc : dnode) (v : dnav) : option bytes :=
   match d_node doc (dn_cur v) with
   | None => None
   | Some n =>
@@ -163,30 +165,31 @@ Definition d_value (doc : dnode) (v : dnav) : option bytes :=
                  | None => Some (d_inner_text n)
                  end
       | DText => Some (d_data n)
-      | DDoc => Some []
+      | DDoc => Some (if fx then d_inner_text n else [])
       end
   end.
 
-Definition d_obs (doc : dnode) (v : dnav) (o : obs_op) : option obs :=
+Definition d_obs (fx : bool) (doc : dnode) (v : dnav) (o : obs_op) : option obs :=
   match o with
   | ONodeType => option_map VType (d_nodetype doc v)
   | OLocalName => option_map VStr (d_localname doc v)
   | OPrefix => option_map VStr (d_prefix_of doc v)
-  | OValue => option_map VStr (d_value doc v)
+  | OValue => option_map VStr (d_value fx doc v)
   end.
 
 (* query.go:247-256: for { node := x.curr.PrevSibling; if node == nil { break }; x.curr = node } *)
 Fixpoint d_walk_first (i : nat) : nat :=
   match i with 0 => 0 | S j => d_walk_first j end.
 
-Definition d_move (doc : dnode) (v : dnav) (m : move_op) : option (dnav * bool) :=
+Definition d_move (fx : bool) (doc : dnode) (v : dnav) (m : move_op) : option (dnav * bool) :=
   match d_node doc (dn_cur v) with
   | None => None
   | Some n =>
       Some match m with
       | MRoot =>
-          (* query.go:202-204: x.curr = x.root   (x.attr is NOT reset) *)
-          (mkDNav (dn_root v) (dn_root v) (dn_attr v), true)
+          (* query.go:202-204: x.curr = x.root   (x.attr is NOT reset: quirk Q2; the repaired
+             reference resets it) *)
+          (mkDNav (dn_root v) (dn_root v) (if fx then None else dn_attr v), true)
       | MParent =>
           (* query.go:206-215 *)
           match dn_attr v with
@@ -439,22 +442,22 @@ Arguments Ret {R}. Arguments Obs {R}. Arguments Move {R}. Arguments Copy {R}. Ar
 Definition upd {A} (f : nat -> A) (x : nat) (v : A) : nat -> A :=
   fun y => if Nat.eqb y x then v else f y.
 
-Fixpoint run_dom {R} (doc : dnode) (p : prog R) (regs : nat -> dnav) : option R :=
+Fixpoint run_dom {R} (fx : bool) (doc : dnode) (p : prog R) (regs : nat -> dnav) : option R :=
   match p with
   | Ret r => Some r
   | Obs x o k =>
-      match d_obs doc (regs x) o with
-      | Some v => run_dom doc (k v) regs
+      match d_obs fx doc (regs x) o with
+      | Some v => run_dom fx doc (k v) regs
       | None => None
       end
   | Move x m k =>
-      match d_move doc (regs x) m with
-      | Some (v', b) => run_dom doc (k b) (upd regs x v')
+      match d_move fx doc (regs x) m with
+      | Some (v', b) => run_dom fx doc (k b) (upd regs x v')
       | None => None
       end
-  | Copy x y k => run_dom doc k (upd regs y (regs x))
+  | Copy x y k => run_dom fx doc k (upd regs y (regs x))
   | MoveTo x y k =>
-      let '(v', b) := d_moveto (regs x) (regs y) in run_dom doc (k b) (upd regs x v')
+      let '(v', b) := d_moveto (regs x) (regs y) in run_dom fx doc (k b) (upd regs x v')
   end.
 
 Fixpoint run_idr {R} (t : tree) (p : prog R) (regs : nat -> inav) : option R :=
@@ -484,8 +487,12 @@ Definition i_init (start : path) : nat -> inav := fun _ => mkINav start start.
    Q2: MoveToRoot() keeps x.attr, so a navigator standing on an attribute ends up "on attribute
        i of the root" (NodeType Root with MoveToChild refused, or an index panic when the root is
        an element).
-   Both are confirmed on the Go code by the harness (summary.extra.reference_quirks).  The
-   agreement theorem is stated for executions of the reference that avoid them. *)
+   Both are confirmed on the Go code by the harness (summary.extra.reference_quirks); in both the
+   IDR is the side that follows the XPath data model.  The agreement theorem is stated
+   (a) for xmlquery as it is (fx = false) over executions that avoid Q1 and Q2 ([ref_ok]), and
+   (b) without any guard for the repaired reference (fx = true: Value() of the document node is
+       its InnerText, MoveToRoot() resets the attribute index) - the harness's end-to-end
+       comparison runs the engine over exactly this repair (fixNav in harness/cmd/c11/expr.go). *)
 Definition quirk_obs (doc : dnode) (v : dnav) (o : obs_op) : bool :=
   match o, d_nodetype doc v with
   | OValue, Some XRoot => true
@@ -503,13 +510,13 @@ Fixpoint ref_ok {R} (doc : dnode) (p : prog R) (regs : nat -> dnav) : Prop :=
   | Ret _ => True
   | Obs x o k =>
       quirk_obs doc (regs x) o = false /\
-      match d_obs doc (regs x) o with
+      match d_obs false doc (regs x) o with
       | Some v => ref_ok doc (k v) regs
       | None => True
       end
   | Move x m k =>
       quirk_move (regs x) m = false /\
-      match d_move doc (regs x) m with
+      match d_move false doc (regs x) m with
       | Some (v', b) => ref_ok doc (k b) (upd regs x v')
       | None => True
       end
@@ -569,7 +576,7 @@ Definition check_run (doc : dnode) (t : tree) (r : nrun) : bool :=
   let start := rev (r_start r) in
   let p := trace_prog (r_ops r) [] in
   valid_start doc start
-  && match run_dom doc p (d_init start) with
+  && match run_dom false doc p (d_init start) with
      | Some out => list_eqb res_eqb out (r_dom r)
      | None => false
      end
